@@ -16,6 +16,7 @@ import KafkaVerif.Spec.ByteLayout
 import KafkaVerif.Spec.Crc
 import KafkaVerif.Model.ReaderRun
 import KafkaVerif.Model.PullReader
+import KafkaVerif.Model.ReaderWorld
 
 namespace KV.OracleC02
 open KV KV.C02
@@ -217,7 +218,31 @@ def failProp (r : Rep) (why : String) : Rep := if r.bad.isSome then r else { r w
 
 def kcode (cls : String) : Option Nat := if cls.startsWith "kafka" then (cls.drop 5).toString.toNat? else none
 
-def replayStep (cfg : RCfg) (all final : List Rec) (r : Rep) (e : TEv) : Rep :=
+/-- the scenario as the world model (Model/ReaderWorld.lean) needs it: the stored layout (and the one left after the
+scripted log-start truncation), the broker's byte budgets, the high watermark -/
+structure WCtx where
+  layouts : List (List Item)
+  budgets : List Nat
+  hwm : Int
+
+def sizeOfItems (items : List Item) : Nat := (items.map Item.size).foldl (· + ·) 0
+
+/-- the recorded fetch round is what `worldEvent` computes (broker serving under the fetch contract + the decoder as
+written) for one of the scripted budgets -/
+def worldFetchMatches (w : WCtx) (s : RR) (e : Bool) (d : List Rec) (c : Int) (oc : Outcome) : Bool :=
+  w.layouts.any fun items => w.budgets.any fun b =>
+    match worldEvent items s (.fetch b w.hwm e) with
+    | .data d' c' oc' => d' == d && c' == c && oc' == oc
+    | _ => false
+
+/-- the recorded deliveries of a round whose connection was lost are what `worldEvent` computes for some byte count -/
+def worldLostMatches (w : WCtx) (s : RR) (d : List Rec) : Bool :=
+  w.layouts.any fun items => (List.range (sizeOfItems (dropBefore s.connOff items) + 2)).any fun n =>
+    match worldEvent items s (.lost n w.hwm false) with
+    | .cutAfter d' => d' == d
+    | _ => false
+
+def replayStep (cfg : RCfg) (w : WCtx) (all final : List Rec) (r : Rep) (e : TEv) : Rep :=
   if r.bad.isSome then r else
   match e with
   | .top a o =>
@@ -257,6 +282,10 @@ def replayStep (cfg : RCfg) (all final : List Rec) (r : Rep) (e : TEv) : Rep :=
     let r0 := { r with d := [] }
     if cls == "nil" || cls == "eof" || cls == "kafka7" then
       if !(goodDataB all final q r.d c) then failProp r s!"fetch round at {q}: delivered {r.d.map (·.1)} conn offset after {c}: not the stored records of [{q},{c})"
+      else if !w.budgets.isEmpty && !(cls == "kafka7" && r.d.isEmpty && c == q)       -- an error answer RequestTimedOut looks the same
+          && !(worldFetchMatches w s0 (cls == "kafka7") r.d c (if cls == "kafka7" then .timedOut else .eof))
+          && !(worldLostMatches w s0 r.d) then                                        -- the scripted `cut` fault truncates anywhere
+        fail r s!"fetch round at {q}: delivered {r.d.map (·.1)}, conn offset after {c}, {cls}: not what the world model (serve + decoder as written) computes for any scripted budget"
       else
         let s' := rstep cfg s0 (.data r.d c (if cls == "kafka7" then .timedOut else .eof))
         if s'.offset == o && s'.connOff == c then { r0 with s := s' }
@@ -270,6 +299,8 @@ def replayStep (cfg : RCfg) (all final : List Rec) (r : Rep) (e : TEv) : Rep :=
       | none =>
         if r.d.isEmpty then { r0 with s := rstep cfg s0 .ioErr }
         else if !(goodCutB all final q r.d) then failProp r s!"lost connection at {q}: delivered {r.d.map (·.1)}: not an initial segment of the stored records"
+        else if !w.budgets.isEmpty && !(worldLostMatches w s0 r.d) then
+          fail r s!"lost connection at {q}: delivered {r.d.map (·.1)}: not what the world model computes for any number of bytes"
         else
           let s' := rstep cfg s0 (.cutAfter r.d)
           if s'.offset == o then { r0 with s := s' } else fail r s!"read(cut): recorded offset={o}, model offset={s'.offset}"
@@ -441,9 +472,14 @@ def step (line : String) : String :=
           let final := match (field ws "truncn").bind (·.toNat?) with
             | some tn => allRecords (items.drop tn)
             | none => all
+          let budgets := ((field ws "budgets").bind (fun s => (s.splitOn ",").mapM (·.toNat?))).getD []
+          let w : WCtx := { layouts := match (field ws "truncn").bind (·.toNat?) with
+                                       | some tn => [items, items.drop tn]
+                                       | none => [items],
+                            budgets := budgets, hwm := (fieldInt ws "hwm").getD 0 }
           match evs with
           | .top _ o :: _ =>
-            let r := evs.foldl (replayStep {} all final) { s := { offset := o } }
+            let r := evs.foldl (replayStep {} w all final) { s := { offset := o } }
             let r := if r.bad.isNone && r.nerr != r.s.errors.length then fail r s!"errors sent: recorded {r.nerr}, model {r.s.errors.length}" else r
             match r.bad with
             | none => answer "ok" true
